@@ -71,8 +71,26 @@ def run(pid, tier, seed, replay):
         n = {"C01": (6000, 120000), "C02": (6000, 120000), "C03": (1500, 20000)}[pid][0 if tier == "quick" else 1]
         mode = {"C01": "deep", "C02": "planted", "C03": "pure"}[pid]
         out = os.path.join(wd, mode + ".ndjson")
-        vlib.run([drv, "gen", mode, str(n), str(seed), out], timeout=3000)
-        cases_files.append((mode, out))
+        p0 = vlib.run([drv, "gen", mode, str(n), str(seed), out], timeout=3000, check=False)
+        if p0.returncode != 0 and pid == "C03" and ("fatal error:" in p0.stdout or "panic:" in p0.stdout):
+            # matching brought the process down (concurrent use of one pattern value is part of what C03 quantifies over)
+            rep.reject("the driver process died while matching (%s)" % mode, [],
+                       {"property": pid, "labels": ["host-process-crashed"], "mode": mode, "seed": seed, "n": n, "output": p0.stdout[-3000:]})
+        elif p0.returncode != 0:
+            raise vlib.CannotRun("matchdrv failed (%s):\n%s" % (mode, p0.stdout[-3000:]))
+        else:
+            cases_files.append((mode, out))
+        if pid == "C03":
+            # the race detector as a sensor for writes to what a match is given (one pattern value, many goroutines, first use)
+            rdrv = vlib.build_driver("matchdrv", wd, race=True)
+            o2 = os.path.join(wd, "pure_race.ndjson")
+            pr = vlib.run([rdrv, "gen", "pure", "150" if tier == "quick" else "1500", str(seed + 1), o2], env=dict(os.environ, GORACE="halt_on_error=0"), timeout=3000, check=False)
+            if "WARNING: DATA RACE" in pr.stdout:
+                rep.reject("data race reported while one pattern value is matched from many goroutines", [], {"property": pid, "race": pr.stdout[-3000:]})
+            elif pr.returncode != 0 and ("fatal error:" in pr.stdout or "panic:" in pr.stdout):
+                rep.reject("the race-build driver process died while matching", [], {"property": pid, "labels": ["host-process-crashed"], "output": pr.stdout[-3000:]})
+            elif pr.returncode != 0:
+                raise vlib.CannotRun("matchdrv (race build) failed:\n%s" % pr.stdout[-3000:])
         if pid == "C03":
             # deep and planted shapes as well, each evaluated repeatedly
             pass
